@@ -28,6 +28,9 @@ def classify(component, what, case):
     if law == "dec64_accept_iff" and case.get("rfc_canonical") is None and case.get("got", ["err"])[0] == "ok" \
             and re.fullmatch(rb"[ \t\n\r\x0b\x0c]*[+-](\.[0-9]+)?[ \t\n\r\x0b\x0c]*", val, re.S):
         return "F2"
+    if law == "string_accept_iff" and case.get("rfc_canonical") is None and case.get("got", ["err"])[0] == "ok" \
+            and (b"\xef\xbf\xbe" in val or b"\xef\xbf\xbf" in val):
+        return "F22"
     # F22: U+FFFE / U+FFFF accepted through the value API, rejected by the XML / JSON / YANG lexers
     if law == "route_is_store" and head == "str" and (b"\xef\xbf\xbe" in val or b"\xef\xbf\xbf" in val) \
             and case.get("route") in ("xml", "json-string", "default") and case.get("got") == "R":
